@@ -1,8 +1,10 @@
 import Model.Builders
 import Proofs.C04
+import Proofs.C04Mle
 import Model.Generated.BuildersSite
 import Mathlib.Tactic.NormNum
 import Mathlib.Tactic.IntervalCases
+import Mathlib.Tactic.FinCases
 import Mathlib.Data.Rat.Floor
 
 /-!
@@ -13,13 +15,27 @@ over `Rat`, the instance the driver runs; the `example`s at `Rat` check that the
 instances and Mathlib's agree).  Sums are the model's `sumTo n` (indices `< n`).
 
 What is *not* proved here and why:
-* `normalize`: that the vector LAPACK's `eig` returns is a left eigenvector for eigenvalue 1
-  with non-zero sum is a contract (`normalize_stationary_of_contract` is conditional on it);
-  the correspondence check compares the real output with the exact stationary vector.
-* `mle`: that the Prinz iteration ends in a symmetric non-negative `X` with
-  `X_rs = rowsum X` is C12 (`C12.sweep_invariants`); here the output stage is proved for every
-  such `X`.
+* `normalize`: stationarity of the populations that `normalize` returns needs the eigen-solver.
+  LAPACK's `eig` is a **parameter** of the model (`normalizeBuilder … eig`); the full clause is
+  `def C04_normalize_stationary_full` (not asserted), what is proved is the contract form
+  `normalize_stationary_partial`: *if* the solver's vector is a left eigenvector for eigenvalue
+  1 with non-zero sum, the code's normalisation makes it a stationary probability vector.  The
+  correspondence check compares the real output with the exact stationary vector.
 * floats: all statements are exact-arithmetic statements.
+
+Correspondence-only clauses (no theorem, because the model has one value per call and no
+notion of aliasing; established by the differential run in `harness/props/c04.py` on every
+case): "the numbers are the same for dense input and every supported sparse format" (each
+container's output is compared with the model and with the ndarray result, incl. sparse inputs
+with un-summed repeated entries), and "the caller's matrix is left unchanged" (snapshots
+before/after every call).  scipy's result containers (`A + A.T`, `A + prior`, `A / 2.0`) are a
+measured table, re-measured on every run.
+
+Theorems marked "by construction of the model" are `rfl`-level: they state what the model
+does (which the correspondence check ties to the code), not a consequence of it.
+
+`mle`: the Prinz iteration is C12; `mle_end_to_end` composes C12's run theorems with the
+output-stage theorems here into one statement about what the `mle` builder returns.
 -/
 
 set_option linter.unusedSectionVars false
@@ -57,14 +73,17 @@ example : rowNormalize 2 (fun i j => if i = 0 then (j : Rat) + 1 else 0) 0 1 = 2
 example (n : Nat) (C : Mat Rat) (i : Nat) (h : 0 < rowSum n C i) :
     sumTo n (fun j => rowNormalize n C i j) = 1 := ((rowNormalize_stochastic n C i).1 h).2
 
-/-- the `normalize` builder returns `rownorm (C + prior)` and `C + prior` -/
+/-- (by construction of the model) the `normalize` builder returns `rownorm (C + prior)` and
+`C + prior` -/
 theorem normalize_probs (n : Nat) (C : Mat K) (prior : Prior K) (eig : Option (Nat → K)) :
     (normalizeBuilder n C prior eig).probs = rowNormalize n (applyPrior C prior) ∧
     (normalizeBuilder n C prior eig).counts = applyPrior C prior := ⟨rfl, rfl⟩
 
 /-! ### prior counts are added before estimation -/
 
-/-- `builder(C, prior) = builder(C + prior, None)` for all three builders (for `mle`: around
+/-- (by construction of the model: `applyPrior` is the first step of each builder, as
+`_apply_prior_counts` is the first statement of each function)
+`builder(C, prior) = builder(C + prior, None)` for all three builders (for `mle`: around
 any estimator `est`) -/
 theorem prior_added_first (n : Nat) (C : Mat K) (prior : Prior K) :
     (∀ eig, (normalizeBuilder n C prior eig).probs = (normalizeBuilder n (applyPrior C prior) .none eig).probs
@@ -77,7 +96,7 @@ theorem prior_added_first (n : Nat) (C : Mat K) (prior : Prior K) :
         mleBuilder est C prior calcEq = mleBuilder est (applyPrior C prior) .none calcEq) :=
   ⟨fun _ => ⟨rfl, rfl, rfl⟩, fun _ => ⟨rfl, rfl, rfl⟩, fun _ _ => rfl⟩
 
-/-- the prior really changes the numbers (scalar and matrix priors add entrywise) -/
+/-- (by construction of the model) scalar and matrix priors add entrywise -/
 theorem applyPrior_entry (C : Mat K) (a : K) (P : Mat K) (i j : Nat) :
     applyPrior C .none i j = C i j ∧
     applyPrior C (.scalar a) i j = C i j + a ∧
@@ -151,7 +170,8 @@ theorem transpose_pi_prob (n : Nat) (hn : 0 < n) (C : Mat K) (prior : Prior K)
   · intro i hi
     exact div_pos (hpos i hi) htot
 
-/-- `calculate_eq_probs=False` returns no populations; the returned counts are `S/2` -/
+/-- (by construction of the model) `calculate_eq_probs=False` returns no populations; the
+returned counts are `S/2` -/
 theorem transpose_flags (n : Nat) (C : Mat K) (prior : Prior K) :
     (transposeBuilder n C prior false).eq = none ∧
     (∃ π, (transposeBuilder n C prior true).eq = some π) ∧
@@ -234,14 +254,126 @@ example : (∀ i j, i < 2 → j < 2 →
   · intro i hi
     interval_cases i <;> norm_num [rowSum, sumTo]
 
+/-! ### the `mle` builder end to end -/
+
+section mle_e2e
+open Ens.Mle Ens.C12P
+variable {n : Nat}
+
+/-- **`builders.mle` end to end** (model: `mleBuilder` around `prinzEst`, i.e. prior counts,
+then the Prinz iteration `Mle.run` of C12 on the dense counts, then `T = X/rowsum`,
+`π = X_rs/ΣX_rs`).  On non-negative counts (after the prior) in which every state has an
+outgoing and an incoming off-diagonal count (implied by strong connectivity with ≥ 2 states,
+`C12.conn_of_strongly_connected`), in exact arithmetic:
+* the call never ends in an assertion failure, and returns whenever the `warnings.warn` call
+  site is in its repaired form;
+* whatever it returns has a row-stochastic non-negative `T`, a positive probability vector `π`
+  that satisfies detailed balance and is stationary under `T`, and the counts `C + prior`.
+This composes C12's `run_spec`/`valid_props` (loop invariants, positivity of the running row
+sums, exact final assertions) with the representation bridge `matFn`/`matOfFn`. -/
+theorem mle_end_to_end {P : Params K} (hs : SqrtSpec P.sqrt) (hP : ParamsOK P) (hn : 0 < n)
+    (hmax : 0 < P.maxIter) (C : Mat K) (prior : Prior K)
+    (hC : ∀ i j, i < n → j < n → 0 ≤ applyPrior C prior i j)
+    (hc : Conn (matOfFn n (applyPrior C prior))) :
+    mleBuilder (prinzEst P n) C prior true ≠ .error .assertion ∧
+    (P.warnSwapped = false → ∃ o, mleBuilder (prinzEst P n) C prior true = .ok o) ∧
+    ∀ o, mleBuilder (prinzEst P n) C prior true = .ok o →
+      o.counts = applyPrior C prior ∧
+      (∀ i, i < n → sumTo n (fun j => o.probs i j) = 1) ∧
+      (∀ i j, i < n → j < n → 0 ≤ o.probs i j) ∧
+      ∃ π, o.eq = some π ∧ sumTo n π = 1 ∧ (∀ i, i < n → 0 < π i) ∧
+        (∀ i j, i < n → j < n → π i * o.probs i j = π j * o.probs j i) ∧
+        (∀ j, j < n → sumTo n (fun i => π i * o.probs i j) = π j) := by
+  have hC' : ∀ i j : Fin n, 0 ≤ mget (matOfFn n (applyPrior C prior)) i j := fun i j => by
+    rw [mget_matOfFn]; exact hC _ _ i.isLt j.isLt
+  obtain ⟨Crs, st, k, hD, hinv, hpos, _, hcase⟩ := run_spec hs hP hn hmax hC' hc
+  have hb : mleBuilder (prinzEst P n) C prior true
+      = match Mle.run P (matOfFn n (applyPrior C prior)) with
+        | .error e => .error e
+        | .ok r => .ok { counts := applyPrior C prior, probs := matFn r.T, eq := some (vecFn r.pi) } := by
+    unfold mleBuilder prinzEst
+    dsimp only
+    cases Mle.run P (matOfFn n (applyPrior C prior)) <;> rfl
+  rcases hcase with ⟨_, hw, herr⟩ | ⟨hne, r, hr, hv⟩
+  · rw [hb, herr]
+    refine ⟨?_, ?_, ?_⟩
+    · simp
+    · intro hf; rw [hw] at hf; cases hf
+    · intro o ho; cases ho
+  · rw [hb, hr]
+    refine ⟨?_, fun _ => ⟨_, rfl⟩, ?_⟩
+    · simp
+    intro o ho
+    injection ho with ho
+    subst ho
+    have hrs := fun i => hpos.rs_pos hD hc hinv i
+    obtain ⟨a, b, c, d, e, f⟩ := valid_props hn hinv hrs hv
+    refine ⟨rfl, ?_, ?_, vecFn r.pi, rfl, ?_, ?_, ?_, ?_⟩
+    · intro i hi
+      rw [sumTo_eq_fin_sum, ← a ⟨i, hi⟩]
+      exact Finset.sum_congr rfl (fun j _ => matFn_lt r.T hi j.isLt)
+    · intro i j hi hj
+      show 0 ≤ matFn r.T i j
+      rw [matFn_lt r.T hi hj]; exact b _ _
+    · rw [sumTo_eq_fin_sum, ← c]
+      exact Finset.sum_congr rfl (fun i _ => vecFn_lt r.pi i.isLt)
+    · intro i hi
+      rw [vecFn_lt r.pi hi]; exact d _
+    · intro i j hi hj
+      show vecFn r.pi i * matFn r.T i j = vecFn r.pi j * matFn r.T j i
+      rw [vecFn_lt r.pi hi, vecFn_lt r.pi hj, matFn_lt r.T hi hj, matFn_lt r.T hj hi]
+      exact e _ _
+    · intro j hj
+      rw [sumTo_eq_fin_sum, vecFn_lt r.pi hj, ← f ⟨j, hj⟩]
+      apply Finset.sum_congr rfl
+      intro i _
+      show vecFn r.pi i.val * matFn r.T i.val j = _
+      rw [vecFn_lt r.pi i.isLt, matFn_lt r.T i.isLt hj]
+
+-- non-vacuity: the all-ones 2×2 counts satisfy the hypotheses (over `Rat`)
+example : (∀ i j, i < 2 → j < 2 → (0 : Rat) ≤ applyPrior (fun _ _ => (1 : Rat)) .none i j) ∧
+    Conn (matOfFn 2 (applyPrior (fun _ _ => (1 : Rat)) .none)) := by
+  refine ⟨fun i j _ _ => by simp [applyPrior], ⟨fun i => ?_, fun i => ?_⟩⟩
+  · fin_cases i
+    · exact ⟨1, by decide, by simp [mget_matOfFn, applyPrior]⟩
+    · exact ⟨0, by decide, by simp [mget_matOfFn, applyPrior]⟩
+  · fin_cases i
+    · exact ⟨1, by decide, by simp [mget_matOfFn, applyPrior]⟩
+    · exact ⟨0, by decide, by simp [mget_matOfFn, applyPrior]⟩
+
+end mle_e2e
+
 /-! ### populations of the `normalize` builder -/
 
-/-- If the eigen-solver's vector `v` is a left eigenvector of the returned matrix for
+/-- **Full clause (NOT proved, never asserted)**: for an eigen-solver `eig` (LAPACK's `eig`
+followed by the selection of the eigenvalue with the largest real part — a *parameter* of the
+model, not modelled), on every count matrix with positive row sums whose row-normalised matrix
+has a unique stationary distribution, the populations `normalize` returns are a probability
+vector that is stationary under the returned matrix.  Proving it needs a specification of the
+solver (`C04_solver_contract`); given that contract it follows from
+`normalize_stationary_partial`. -/
+def C04_normalize_stationary_full (eig : Nat → Mat K → Nat → K) : Prop :=
+  ∀ (n : Nat) (C : Mat K) (prior : Prior K), 0 < n →
+    (∀ i j, i < n → j < n → 0 ≤ applyPrior C prior i j) →
+    (∀ i, i < n → 0 < rowSum n (applyPrior C prior) i) →
+    ∃ π, (normalizeBuilder n C prior
+            (some (eig n (rowNormalize n (applyPrior C prior))))).eq = some π ∧
+      sumTo n π = 1 ∧ (∀ i, i < n → 0 ≤ π i) ∧
+      ∀ j, j < n → sumTo n (fun i => π i * rowNormalize n (applyPrior C prior) i j) = π j
+
+/-- what LAPACK is trusted for: the vector it returns for a row-stochastic matrix is a left
+eigenvector for eigenvalue 1 with components of one sign and non-zero sum -/
+def C04_solver_contract (eig : Nat → Mat K → Nat → K) : Prop :=
+  ∀ (n : Nat) (T : Mat K), (∀ i, i < n → sumTo n (fun j => T i j) = 1) →
+    (∀ j, j < n → sumTo n (fun i => eig n T i * T i j) = eig n T j) ∧ sumTo n (eig n T) ≠ 0 ∧
+    ((∀ i, i < n → 0 ≤ eig n T i) ∨ (∀ i, i < n → eig n T i ≤ 0))
+
+/-- **Contract (`_partial`) form.**  If the eigen-solver's vector `v` is a left eigenvector of the returned matrix for
 eigenvalue 1 with non-zero component sum (the solver's contract), then what the code returns
 after `vecs[:,0] /= vecs[:,0].sum()` is stationary and sums to one; if moreover the components
 of `v` all have the same sign (Perron vector up to the solver's arbitrary scaling), it is
 non-negative. -/
-theorem normalize_stationary_of_contract (n : Nat) (C : Mat K) (prior : Prior K) (v : Nat → K)
+theorem normalize_stationary_partial (n : Nat) (C : Mat K) (prior : Prior K) (v : Nat → K)
     (heig : ∀ j, j < n →
       sumTo n (fun i => v i * (normalizeBuilder n C prior (some v)).probs i j) = v j)
     (hsum : sumTo n v ≠ 0)
@@ -273,6 +405,18 @@ theorem normalize_stationary_of_contract (n : Nat) (C : Mat K) (prior : Prior K)
     · apply div_nonneg_of_nonpos (h i hi)
       rw [sumTo_eq_sum]
       exact Finset.sum_nonpos (fun k hk => h k (Finset.mem_range.mp hk))
+
+/-- given the solver contract, the full clause follows (so the only thing between the proved
+part and the full clause is LAPACK) -/
+theorem normalize_stationary_of_solver_contract (eig : Nat → Mat K → Nat → K)
+    (hsolver : C04_solver_contract eig) : C04_normalize_stationary_full eig := by
+  intro n C prior _ _ hpos
+  have hrows : ∀ i, i < n → sumTo n (fun j => rowNormalize n (applyPrior C prior) i j) = 1 :=
+    fun i hi => rowNormalize_row_sum (hpos i hi)
+  obtain ⟨h1, h2, h3⟩ := hsolver n _ hrows
+  obtain ⟨a, b, c⟩ := normalize_stationary_partial n C prior
+    (eig n (rowNormalize n (applyPrior C prior))) h1 h2 _ rfl
+  exact ⟨_, rfl, b, c h3, a⟩
 
 -- non-vacuity: T = rownorm [[1,1],[2,0]] = [[1/2,1/2],[1,0]] has the left eigenvector (-4,-2)
 example : ∀ j, j < 2 → sumTo 2 (fun i => (if i = 0 then (-4 : Rat) else -2) *
